@@ -16,7 +16,7 @@ RULE = ("seeded typed query generator x small databases with NULLs/duplicates/em
         "source result has >= 1 row; distinct = distinct (source text, pair)")
 ASSUMPTIONS = ["SQLite 3.40.1 / DuckDB 1.5.5 define the semantics", "UnsupportedError from transpile(unsupported_level=RAISE) removes the case"]
 SPEC = {
-    "quick": {"shards": 16, "time_cap": 120, "cases": 40000},
+    "quick": {"shards": 16, "time_cap": 400, "cases": 40000},
     "thorough": {"shards": 16, "time_cap": 1200, "cases": 300000},
 }
 PAIRS = [("sqlite", "duckdb"), ("duckdb", "sqlite"), ("sqlite", "sqlite"), ("duckdb", "duckdb")]
